@@ -84,7 +84,7 @@ theorem keeps_writeAt (hI : StoreInv g I) {n : NodeId} {r : Reg}
   · dsimp only
     split
     · rename_i hc
-      exact hI.cache _ _ _ _ _ hn (by rw [hc.2]; decide) h2
+      exact hI.cache _ _ _ _ _ hn (by rw [hc.2]; decide) (hI.invOf _ n h2)
     · exact hI.invOf _ n h2
   · exact hI.invBy _ n hs
 
